@@ -35,10 +35,10 @@ CHECKS = {
    note="Trusted: TLC, scheduler, scripted engine. The 'no later than timeout plus bounded slack' clause is checked as 'never before the timeout and never stuck' (virtual time under an adversarial scheduler has no meaningful upper bound); real TCP/TLS handshakes (refused, black-holed, reset) are not exercised here.",
    design="§4 C04"),
  "C05": dict(
-   technique="TLA+ Impl spec Teardown.tla (entry fence, park-guard counters, wait-out gate) model-checked by TLC; stop/destroy/destroy-in-callback programs on the real Transport::Impl over a scripted engine under the deterministic scheduler, also in ASan and TSan builds (scheduler not instrumented); a real-engine scenario for concurrent stop(); traces validated by TLC against TransportTrace.tla / StopTrace.tla",
+   technique="TLA+ Impl spec Teardown.tla (entry fence, park-guard counters, wait-out gate) model-checked by TLC; stop/destroy/destroy-in-callback programs on the real Transport::Impl over a scripted engine under the deterministic scheduler, also in ASan and TSan builds (scheduler not instrumented); TLA+ Impl spec EngineShutdown.tla (enqueue / process / stop / shutdownDrain of the engines at critical-section grain, four deviation flags) model-checked incl. termination under fairness; the REAL TcpEngine and UdpEngine (plain and batched loop) over loopback run under the same scheduler (epoll_wait and the addListener future wait are schedule points): connect/send/close/addListener/stop/start/last-owner-release programs under random, unfair-time-out and DFS schedules, also ASan and TSan; traces validated by TLC against TransportTrace.tla / EngineTrace.tla / StopTrace.tla",
    category="model_checking",
-   text="TLC proves within its bounds that the Impl is never freed while a receiver, connector or flusher is inside (dropping any counter from the gate is caught) and that nothing stays parked. The real teardown paths (normal, already stopped, I/O-thread self-destruction) run with parked receiveSync/connectSync/setReadMode callers and in-flight send/close/addListener under random and preemption-bounded schedules; a crash or sanitizer report is a violation, every call must return, no callback may start after stop()/destruction returned. Real TCP and UDP engines are checked for the two-concurrent-stoppers case.",
-   note="Trusted: TLC, scheduler, ASan/TSan (data-race clause is exploration: TSan sees only the schedules explored, and the event log adds happens-before edges at call boundaries). Repeated start/stop cycles and real-engine teardown races beyond concurrent stop() are covered only by the repository's own tests.",
+   text="TLC proves within its bounds that the Impl is never freed while a receiver, connector or flusher is inside (dropping any counter from the gate is caught) and that nothing stays parked. The real teardown paths (normal, already stopped, I/O-thread self-destruction) run with parked receiveSync/connectSync/setReadMode callers and in-flight send/close/addListener under random and preemption-bounded schedules; a crash or sanitizer report is a violation, every call must return, no callback may start after stop()/destruction returned. On the real TCP and UDP engines the schedule also decides where the I/O thread stands inside process()/shutdownDrain() when a call arrives: every call must return, calls begun after a returned stop() must fail, every identifier the application has seen (also one handed out by a connect racing the stop) must be closed when stop() returns, no callback after it, no write() to a closed descriptor.",
+   note="Trusted: TLC, scheduler, ASan/TSan (data-race clause is exploration: TSan sees only the schedules explored, and the event log adds happens-before edges at call boundaries). Real-engine programs are small (<= 3 application threads, <= 3 sessions, no TLS, timers of the engines run on real time and never fire); sockets are loopback, so kernel-side timing is the only nondeterminism outside the schedule.",
    design="§4 C05"),
  "C02": dict(
    technique="TLA+ Impl spec Fanout.tla (close fan-out with concurrent observe/unobserve/setSessionData) model-checked by TLC; fan-out programs on the real Transport::Impl over a scripted engine under the deterministic scheduler (random + preemption-bounded DFS) validated by TLC against TransportTrace.tla; life-cycle scenario scripts on the real TCP and UDP engines over loopback (incl. a connect inside shutdownDrain's window entered by pausing the I/O thread at an interposed pthread_rwlock_wrlock) validated by TLC against LifecycleTrace.tla",
